@@ -17,6 +17,12 @@ CHECKS = {
  "C08": ("Lean theorems over a model of pkg/rf handleSUR/buildTaffif and the CHF's getUnitCost formula: exact debit price, reserve allowed = floor(quota/cost) and price <= quota, zero-cost case, tariff agreement for every stored string, always answered. Rating.holds is proved of the model and evaluated by the Lean driver on the real server's answers.",
          "Trusted: Lean kernel; go-diameter, strconv.Atoi, math.Pow10->uint32 (amd64) modelled and validated by correspondence only.",
          "Lean 4 proof + correspondence + Lean-evaluated oracle on implementation traces", "DESIGN.md §5 C08"),
+ "C01": ("Lean theorem C01 (induction over unbounded operation lists): balance + held reservation of every subscriber/rating group = initial + credits - unit cost x reported online usage, over a model of the whole credit-control path (processor + account + rating servers); C01_step gives the exact movement per operation. The per-operation movement (Lean terms creditedOp - ratedOp) is compared with the real code's stored balances and ReservedQuota after every request driven through the real gin router and Diameter servers.",
+         "Trusted: Lean kernel; the Charging/Abmf/Rating models (validated by exact correspondence of responses, balances, reservations, rating modes and records on generated histories); gin, openapi, go-diameter, strconv and the MongoDB stand-in are modelled. The quantifier (peers answer, products fit 32 bits) is the decidable predicate opOKb evaluated by the driver.",
+         "Lean 4 invariant proof by induction over histories + exact model/code correspondence + oracle on implementation traces", "DESIGN.md §5 C01"),
+ "C06": ("Lean theorem C06: the invariant Safe (no negative balance; every outstanding grant backed by reserved money) is preserved by every operation of a compliant consumer, for unbounded histories; C06_grant_limited/backed characterise the grant (= floor(available money / unit cost) with final-unit indication exactly when money is short). Both are checked on the real code's trace; the one known finding (reservation shared by two sessions) is classified by a committed witness.",
+         "Trusted: as C01. Compliance is per (subscriber, rating group) ledger - the granularity at which the CHF keeps quota; per-session-compliant overdrafts are the listed known finding.",
+         "Lean 4 invariant proof with ghost ledger + correspondence + oracle on implementation traces", "DESIGN.md §5 C06"),
 }
 PENDING_REASON = "check not built yet in this revision (work in progress; DESIGN.md plans a Lean model + correspondence check for it)"
 
